@@ -30,9 +30,9 @@ CHAIN_DEFECTS = ['untrusted-root', 'leaf-expired', 'leaf-not-yet-valid', 'interm
                  'leaf-signed-by-other-key', 'leaf-issuer-name-mismatch', 'leaf-is-issuer-of-leaf', 'root-not-in-store-same-name',
                  'unknown-critical-extension', 'upper-issuer-no-basic-constraints', 'upper-issuer-is-end-entity',
                  'untrusted-root-sent-in-chain', 'forged-root-same-name-sent-in-chain', 'forged-root-same-name-and-serial-sent-in-chain',
-                 'forged-intermediate-same-name-and-serial-as-anchor']
+                 'forged-intermediate-same-name-and-serial-as-anchor', 'untrusted-root+large-trust-store']
 KEY_DEFECTS = ['sign-key-mismatch', 'sign-key-mismatch+other-signature-scheme']
-CLIENT_ONLY = ['no-client-certificate']
+CLIENT_ONLY = ['no-client-certificate', 'no-client-certificate+large-trust-store']
 TLCP_ONLY = ['enc-key-mismatch', 'enc-cert-untrusted']
 
 
@@ -80,6 +80,12 @@ def build_chain(tag, defect, leaf_usage=KU, leaf_cn='leaf'):
     if defect == 'untrusted-root':
         other = P(tag, 'other-root')
         trust = [X.make_cert('other-' + tag, R.pub(other), 'other-' + tag, other, exts=ca_exts)]
+    elif defect == 'untrusted-root+large-trust-store':
+        # the verifier's store holds many roots (more than 2 KiB of DER), none of them the presenter's
+        trust = []
+        for j in range(6 + len(tag) % 3):
+            o = P(tag, 'other-root', j)
+            trust.append(X.make_cert('other-%d-%s' % (j, tag), R.pub(o), 'other-%d-%s' % (j, tag), o, exts=ca_exts))
     elif defect == 'root-not-in-store-same-name':
         other = P(tag, 'other-root')
         trust = [X.make_cert(root_cn, R.pub(other), root_cn, other, exts=ca_exts)]
@@ -172,6 +178,12 @@ def scenario(ctx, u, defect, tag):
     mutual = role == 'server-verifies-client'
     if mutual:
         c_chain, c_priv, c_trust_for_server = build_chain(tag + '-c', cli_defect, leaf_cn='client')
+    if defect == 'no-client-certificate+large-trust-store' and c_trust_for_server:
+        P2 = X.priv_from_seed
+        ca_exts = [X.ext_basic_constraints(True), X.ext_key_usage(X.KU_KEY_CERT_SIGN | X.KU_CRL_SIGN)]
+        for j in range(6):
+            o = P2(tag, 'extra-root', j)
+            c_trust_for_server = c_trust_for_server + [X.make_cert('extra-%d-%s' % (j, tag), R.pub(o), 'extra-%d-%s' % (j, tag), o, exts=ca_exts)]
     creds = T.CustomCreds(ctx, tag, s_chain, s_priv, enc_priv, s_trust, c_chain, c_priv, c_trust_for_server)
     L = ctx.L
     if defect in ('sign-key-mismatch', 'sign-key-mismatch+other-signature-scheme'):
@@ -200,7 +212,7 @@ def run_case(ctx, u, defect, tag, seed, scheme=None):
     proto = T.PROTOS[u['proto']]
     creds, hooks, mutual = scenario(ctx, u, defect, tag)
     has_cert = None
-    if defect == 'no-client-certificate':
+    if defect in ('no-client-certificate', 'no-client-certificate+large-trust-store'):
         has_cert = False
     try:
         srv_ctx, cli_ctx = T.pair_ctx(ctx, creds, proto, mutual, client_has_cert=has_cert)
@@ -222,7 +234,13 @@ def run_case(ctx, u, defect, tag, seed, scheme=None):
         return hook
     kw = {'srv_hook': with_scheme('srv'), 'cli_hook': with_scheme('cli')}
     fault = None
-    res = T.run_handshake(ctx, srv_ctx, cli_ctx, seed=seed, use_proxy=True, fault=fault, **kw)
+    try:
+        res = T.run_handshake(ctx, srv_ctx, cli_ctx, seed=seed, use_proxy=True, fault=fault, **kw)
+    except AssertionError as e:
+        # tls_init refused the configuration (e.g. a trust store larger than the connection object holds)
+        srv_ctx.free()
+        cli_ctx.free()
+        return {'config_refused': str(e)}
     out = {'server_ret': res['server'].ret, 'client_ret': res['client'].ret, 'hung': res['hung'],
            'records': [(i, d, r[0], len(r)) for i, d, r in res['proxy'].records]}
     if scheme is not None:
